@@ -538,7 +538,9 @@ fn gen_re_pat(rng: &mut Rng) -> Pat {
 }
 
 pub struct GRule { pub src: String, pub insts: Vec<Vec<u8>>, pub kinds: Vec<&'static str> }
-pub struct GSet { pub namespaces: Vec<(String, String)>, pub globals: Vec<(String, GVal)>, pub insts: Vec<Vec<u8>>, pub kinds: Vec<String>, pub relaxed: bool }
+pub struct GSet { pub namespaces: Vec<(String, String)>, pub globals: Vec<(String, GVal)>, pub insts: Vec<Vec<u8>>, pub kinds: Vec<String>, pub relaxed: bool,
+                  /// extra scans (of the first buffer) with these string globals overridden through Scanner::set_global
+                  pub scan_globals: Vec<Vec<(String, String)>> }
 #[derive(Clone, Debug)]
 pub enum GVal { B(bool), I(i64), F(f64), S(String), Bytes(Vec<u8>), Json(String) }
 
@@ -646,17 +648,63 @@ pub fn gen_set(rng: &mut Rng) -> GSet {
         }
         namespaces.push((if n == 0 && rng.chance(1, 2) { "default".to_string() } else { format!("ns{}", n) }, src));
     }
-    GSet { namespaces, globals, insts, kinds, relaxed: rng.chance(1, 5) }
+    GSet { namespaces, globals, insts, kinds, relaxed: rng.chance(1, 5), scan_globals: vec![] }
+}
+
+/// Rule sets whose verdicts depend on WHICH regexp set a rule is wired to: 3-10 rules, each
+/// with its own `or`-chain of `matches` over one of several string globals (ast2ir groups
+/// >= 2 `matches` with the same left operand inside one `or` into a RegexSet, keyed by
+/// RegexSetId in Rules::regex_sets; `contains`/`icontains` are not grouped).  Every regexp
+/// holds a token unique to its rule; one extra scan per rule sets the rule's global to a
+/// string containing only that rule's token, so exactly that rule (of the family) matches,
+/// and any permutation of the sets changes some dump.
+pub fn gen_regex_set_family(rng: &mut Rng) -> GSet {
+    let m = 1 + rng.below(4) as usize;
+    let k = 3 + rng.below(8) as usize;
+    let toks: Vec<[String; 3]> = (0..k).map(|i| [format!("{}{}a", word(rng, 3, 5), i), format!("{}{}b", word(rng, 3, 5), i), format!("{}{}c", word(rng, 3, 5), i)]).collect();
+    let mut defaults = vec![String::from("none"); m];
+    for i in 0..k { if rng.chance(1, 2) { let t = rng.below(2) as usize; defaults[i % m].push_str(&format!(" {}", toks[i][t])); } }
+    let mut globals: Vec<(String, GVal)> = (0..m).map(|j| (format!("g_s{}", j), GVal::S(defaults[j].clone()))).collect();
+    globals.push(("g_int".into(), GVal::I(rng.range(-3, 3))));
+    let two_ns = rng.chance(1, 3);
+    let mut srcs = vec![String::new(), String::new()];
+    let mut scan_globals = vec![]; let mut kinds = vec!["regex-set-family".to_string()];
+    for i in 0..k {
+        let g = format!("g_s{}", i % m); let t = &toks[i];
+        let (cond, inst): (String, Vec<String>) = match rng.below(6) {
+            // every regexp has a class or a quantifier: a purely literal one is turned into
+            // `contains`/`icontains` by ast2ir and would not become a member of a set
+            0 => (format!("{g} matches /{}[0-9]?/ or {g} matches /{}.?/", t[0], t[1]), vec![t[0].clone(), t[1].clone()]),
+            1 => (format!("{g} matches /{}[a-z]?/i or {g} matches /{}\\d*/ or {g} matches /{}[0-9]+/", t[0], t[1], t[2]), vec![t[0].to_uppercase(), t[1].clone(), format!("{}77", t[2])]),
+            2 => (format!("filesize > 100000 or {g} matches /{}(x|y)?/ or {g} matches /^{}.?/", t[0], t[1]), vec![format!("x{}", t[0]), t[1].clone()]),
+            3 => (format!("({g} matches /{}.?/s or {g} matches /{}.?$/) and not {g} contains \"zzzz\"", t[0], t[1]), vec![t[0].clone(), format!("- {}", t[1])]),
+            4 => (format!("{g} matches /{}[0-9]?/ or g_int == 99 or {g} matches /{}[0-9]?/ or {g} icontains \"{}\"", t[0], t[1], t[2].to_uppercase()), vec![t[0].clone(), t[1].clone(), t[2].clone()]),
+            _ => (format!("{g} matches /({}|{})x/ or {g} matches /{}.?y/ or {g} matches /{}\\w?/", t[0], t[1], t[1], t[2]), vec![format!("{}x", t[0]), format!("{}y", t[1]), t[2].clone()]),
+        };
+        let flags = if rng.chance(1, 8) { "private " } else { "" };
+        let which = if two_ns && i % 2 == 1 { 1 } else { 0 };
+        srcs[which].push_str(&format!("{}rule rs{} {{ condition: {} }}\n", flags, i, cond));
+        for x in inst { scan_globals.push(vec![(g.clone(), x)]); }
+        kinds.push("cond-regex-set".into());
+    }
+    // an unrelated ordinary rule, so that the regexp pool and patterns are not empty
+    let extra = gen_rule(rng, "plain0", &[], &globals, &[]);
+    srcs[0].push_str(&extra.src);
+    let mut namespaces = vec![("default".to_string(), srcs[0].clone())];
+    if two_ns { namespaces.push(("ns_b".to_string(), srcs[1].clone())); }
+    kinds.extend(extra.kinds.iter().map(|x| x.to_string()));
+    GSet { namespaces, globals, insts: extra.insts, kinds, relaxed: false, scan_globals }
 }
 
 pub fn set_json(set: &GSet) -> String {
-    format!("{{\"namespaces\":[{}],\"globals\":[{}],\"relaxed_re_syntax\":{}}}",
+    format!("{{\"namespaces\":[{}],\"globals\":[{}],\"relaxed_re_syntax\":{},\"scan_globals\":[{}]}}",
         set.namespaces.iter().map(|(n, s)| format!("[{},{}]", json_str(n), json_str(s))).collect::<Vec<_>>().join(","),
         set.globals.iter().map(|(g, v)| { let (t, x) = match v {
             GVal::B(b) => ("bool", b.to_string()), GVal::I(i) => ("int", i.to_string()), GVal::F(f) => ("float", format!("{:?}", f)),
             GVal::S(x) => ("str", x.clone()), GVal::Bytes(b) => ("bytes_hex", hex(b)), GVal::Json(j) => ("json", j.clone()) };
             format!("[{},{},{}]", json_str(g), json_str(t), json_str(&x)) }).collect::<Vec<_>>().join(","),
-        set.relaxed)
+        set.relaxed,
+        set.scan_globals.iter().map(|o| format!("[{}]", o.iter().map(|(g, v)| format!("[{},{}]", json_str(g), json_str(v))).collect::<Vec<_>>().join(","))).collect::<Vec<_>>().join(","))
 }
 pub fn set_from_json(v: &serde_json::Value) -> GSet {
     let s = |x: &serde_json::Value| x.as_str().unwrap_or("").to_string();
@@ -665,7 +713,8 @@ pub fn set_from_json(v: &serde_json::Value) -> GSet {
         globals: v["globals"].as_array().map(|a| a.iter().map(|g| (s(&g[0]), match g[1].as_str().unwrap_or("") {
             "bool" => GVal::B(s(&g[2]) == "true"), "int" => GVal::I(s(&g[2]).parse().unwrap_or(0)), "float" => GVal::F(s(&g[2]).parse().unwrap_or(0.0)),
             "str" => GVal::S(s(&g[2])), "bytes_hex" => GVal::Bytes(unhex(&s(&g[2]))), _ => GVal::Json(s(&g[2])) })).collect()).unwrap_or_default(),
-        insts: vec![], kinds: vec![], relaxed: v["relaxed_re_syntax"].as_bool().unwrap_or(false) }
+        insts: vec![], kinds: vec![], relaxed: v["relaxed_re_syntax"].as_bool().unwrap_or(false),
+        scan_globals: v["scan_globals"].as_array().map(|a| a.iter().map(|o| o.as_array().map(|ps| ps.iter().map(|p| (s(&p[0]), s(&p[1]))).collect()).unwrap_or_default()).collect()).unwrap_or_default() }
 }
 /// `c08 --replay file.json`: redo the round trips / prefixes of a recorded case and print what happens
 pub fn replay(path: &str) -> i32 {
@@ -695,8 +744,11 @@ pub fn replay(path: &str) -> i32 {
         println!("re-serialized: {} bytes, byte-equal: {}, equal up to map order: {}", b1.len(), b0 == b1, blob_value(&rules_ty(), &b0, hdr_len) == blob_value(&rules_ty(), &b1, hdr_len));
         if static_dump(&r0) != static_dump(&r1) { println!("STATIC DUMPS DIFFER\n{}\n---\n{}", static_dump(&r0), static_dump(&r1)); rc = 1; }
         if let Some(bufs) = case["buffers_hex"].as_array() {
-            for b in bufs { let data = unhex(b.as_str().unwrap_or("")); let (d0, d1) = (scan_dump(&r0, &data), scan_dump(&r1, &data));
+            for b in bufs { let data = unhex(b.as_str().unwrap_or("")); let (d0, d1) = (scan_dump(&r0, &data, &[]), scan_dump(&r1, &data, &[]));
                 if d0 != d1 { println!("SCAN OF {} DIFFERS\n{}\n---\n{}", hex(&data), d0, d1); rc = 1; } }
+            let first = bufs.first().map(|b| unhex(b.as_str().unwrap_or(""))).unwrap_or_default();
+            for o in &set.scan_globals { let (d0, d1) = (scan_dump(&r0, &first, o), scan_dump(&r1, &first, o));
+                if d0 != d1 { println!("SCAN WITH GLOBALS {:?} DIFFERS\n{}\n---\n{}", o, d0, d1); rc = 1; } }
         }
     } else { rc = 1; }
     let ks: Vec<usize> = (0..b0.len()).collect();
@@ -724,6 +776,8 @@ pub fn bound_check_probe() -> i32 {
     let Val::Tuple(fields) = &v else { return 1 };
     let n_sub = if let Val::Seq(x) = &fields[9] { x.len() as u64 } else { return 1 };
     println!("sub_patterns.len() = {}", n_sub);
+    { let mut r = Rng::new(0xC08); let set = gen_regex_set_family(&mut r); let rr = compile_set(&set).unwrap(); let b = rr.serialize().unwrap();
+      if let Some(Val::Tuple(f)) = blob_value(&t, &b, hdr_len) { println!("family regex_sets = {:?}\nregex_pool = {:?}", f[17], f[1]); } else { println!("family blob not decodable"); } }
     for delta in [-1i64, 0, 1] {
         let mut f = fields.clone();
         if let Val::Seq(atoms) = &mut f[13] { if let Some(Val::Tuple(a)) = atoms.first_mut() { a[0] = Val::UInt((n_sub as i64 + delta) as u64); } }
@@ -731,6 +785,35 @@ pub fn bound_check_probe() -> i32 {
         println!("atom[0].sub_pattern_id = len{:+}: Rules::deserialize -> {:?}", delta, classify(&blob));
     }
     0
+}
+
+/// Self-test of stream (b), not part of the check: emulate a deserializer that drops the keys of
+/// Rules::regex_sets and numbers the entries in blob order (the blob is rewritten accordingly,
+/// then loaded by the real deserializer) and count how often the scans of the generated
+/// regex-set families tell the difference.
+pub fn selftest_rekey(n: usize) -> i32 {
+    let t = rules_ty();
+    let (mut changed, mut detected) = (0, 0);
+    for seed in 0..n {
+        let mut rng = Rng::new(1000 + seed as u64);
+        let set = gen_regex_set_family(&mut rng);
+        let bufs = buffers(&mut rng, &set);
+        let r0 = match compile_set(&set) { Ok(r) => r, Err(e) => { println!("rejected: {}", e); continue; } };
+        let b0 = r0.serialize().unwrap(); let hdr_len = header_len(&b0);
+        let Some(Val::Tuple(mut f)) = (match real_decode(&t, &b0[hdr_len..]) { DOut::Ok(v, _) => Some(v), _ => None }) else { println!("undecodable"); continue };
+        let mut differs = false;
+        if let Val::Seq(es) = &mut f[17] { for (i, e) in es.iter_mut().enumerate() { if let Val::Tuple(kv) = e { if kv[0] != Val::SInt(i as i64) { differs = true; } kv[0] = Val::SInt(i as i64); } } }
+        if !differs { continue; }
+        changed += 1;
+        let mut blob = b0[..hdr_len].to_vec(); blob.extend(real_encode(&t, &Val::Tuple(f)));
+        let (c, r1) = try_deserialize(&blob);
+        let Some(r1) = r1 else { println!("rekeyed blob rejected: {:?}", c); continue };
+        let none: Vec<(String, String)> = vec![];
+        let found = bufs.iter().map(|b| (b, &none)).chain(set.scan_globals.iter().map(|o| (&bufs[0], o))).any(|(d, o)| scan_dump(&r0, d, o) != scan_dump(&r1, d, o));
+        if found { detected += 1; }
+    }
+    println!("families: {}, re-keying changes the map: {}, detected by the scans: {}", n, changed, detected);
+    if changed == detected { 0 } else { 1 }
 }
 
 pub fn compile_set(s: &GSet) -> Result<yara_x::Rules, String> {
@@ -773,9 +856,10 @@ pub fn static_dump(r: &yara_x::Rules) -> String {
     }
     s
 }
-pub fn scan_dump(r: &yara_x::Rules, data: &[u8]) -> String {
+pub fn scan_dump(r: &yara_x::Rules, data: &[u8], over: &[(String, String)]) -> String {
     let res = catch(AssertUnwindSafe(|| {
         let mut sc = yara_x::Scanner::new(r);
+        for (g, v) in over { if let Err(e) = sc.set_global(g.as_str(), v.as_str()) { return format!("set_global {} error: {}", g, e); } }
         let results = match sc.scan(data) { Ok(x) => x, Err(e) => return format!("scan error: {}", e) };
         let mut s = String::new();
         for rule in results.matching_rules().include_private(true) {
@@ -876,8 +960,10 @@ fn classify_prefixes(blob: &[u8], ks: &[usize]) -> Vec<Ocl> {
 fn is_err(o: &Ocl) -> bool { !matches!(o, Ocl::Ok | Ocl::Panic) }
 
 fn corpus_sets() -> Vec<GSet> {
-    let g = |src: &str| GSet { namespaces: vec![("default".into(), src.into())], globals: vec![], insts: vec![b"abcd".to_vec(), b"MZ....".to_vec()], kinds: vec!["corpus".into()], relaxed: false };
+    let g = |src: &str| GSet { namespaces: vec![("default".into(), src.into())], globals: vec![], insts: vec![b"abcd".to_vec(), b"MZ....".to_vec()], kinds: vec!["corpus".into()], relaxed: false, scan_globals: vec![] };
+    let mut fam_rng = Rng::new(0xC08);
     vec![
+        gen_regex_set_family(&mut fam_rng),
         g("rule empty { condition: true }"),
         g("rule a { strings: $a = \"abcd\" condition: $a }"),
         g("rule hdr { strings: $a = \"abcd\" $mz = \"MZ\" condition: $mz at 0 and filesize < 100 and $a }"),
@@ -899,6 +985,7 @@ pub fn run(args: &[String]) -> i32 {
     quiet_panics();
     if let Some(p) = arg_val(args, "--replay") { return replay(&p); }
     if arg_flag(args, "--bound-check-probe") { return bound_check_probe(); }
+    if arg_flag(args, "--selftest-regex-set-rekey") { return selftest_rekey(arg_u64(args, "--n", 20) as usize); }
     let seed = arg_u64(args, "--seed", 1);
     let n_bytes = arg_u64(args, "--n", 400) as usize;
     let n_sets = arg_u64(args, "--rulesets", 30) as usize;
@@ -997,7 +1084,7 @@ pub fn run(args: &[String]) -> i32 {
         // one forked generator per rule set: the sequence of rule sets does not depend on
         // how many random choices the streams below make (tier options)
         let mut set_rng = rng.fork();
-        let set = if !corpus.is_empty() { corpus.remove(0) } else { gen_set(&mut set_rng) };
+        let set = if !corpus.is_empty() { corpus.remove(0) } else if done % 4 == 2 { gen_regex_set_family(&mut set_rng) } else { gen_set(&mut set_rng) };
         let rng = &mut set_rng;
         let bufs = buffers(rng, &set);
         let src_json = set_json(&set);
@@ -1015,6 +1102,13 @@ pub fn run(args: &[String]) -> i32 {
         blob_total += b0.len();
         let hdr_len = header_len(&b0);
         stats.inc(&format!("b_blob_{}", match b0.len() { 0..=49_999 => "<50K", 50_000..=99_999 => "50-100K", 100_000..=199_999 => "100-200K", _ => "200K+" }));
+        // how many regexp sets / constrained patterns does this blob hold (maps whose keys matter)
+        if let Some(Val::Tuple(f)) = blob_value(&rty, &b0, hdr_len) {
+            let n = |i: usize| if let Some(Val::Seq(x)) = f.get(i) { x.len() } else { 0 };
+            stats.inc(&format!("b_regex_sets_{}", match n(17) { 0 => "0", 1 | 2 => "1-2", _ => "3+" }));
+            stats.inc(&format!("b_filesize_bounds_{}", match n(10) { 0 => "0", 1 | 2 => "1-2", _ => "3+" }));
+            stats.inc(&format!("b_header_constraints_{}", match n(11) { 0 => "0", 1 | 2 => "1-2", _ => "3+" }));
+        } else { stats.inc("b_blob_not_decodable_by_rust_shape"); }
         let (c1, r1) = try_deserialize(&b0);
         let (mut deser_ok, mut static_eq, mut scans_eq, mut reser_eq, mut stream_eq) = (false, false, false, false, b0 == b0s);
         let mut detail = String::new();
@@ -1038,11 +1132,14 @@ pub fn run(args: &[String]) -> i32 {
                 static_eq = s0 == s1 && s1 == s2;
                 if !static_eq { detail.push_str(&format!("static dumps differ:\n{}\n---\n{}\n---\n{}; ", s0, s1, s2)); }
                 scans_eq = true;
-                for d in &bufs {
-                    let (d0, d1, d2) = (scan_dump(&r0, d), scan_dump(r1, d), scan_dump(r2, d));
+                let none: Vec<(String, String)> = vec![];
+                let scans: Vec<(&Vec<u8>, &Vec<(String, String)>)> = bufs.iter().map(|b| (b, &none)).chain(set.scan_globals.iter().map(|o| (&bufs[0], o))).collect();
+                for (d, over) in scans {
+                    let (d0, d1, d2) = (scan_dump(&r0, d, over), scan_dump(r1, d, over), scan_dump(r2, d, over));
+                    if !over.is_empty() { stats.inc(if d0.contains("+") { "b_global_override_scans_with_matches" } else { "b_global_override_scans_without_matches" }); }
                     if d0.contains("+") { stats.inc("b_scans_with_matches"); } else { stats.inc("b_scans_without_matches"); }
                     if d0.starts_with("PANIC") { stats.inc("b_scan_panicked_on_original"); }
-                    if !(d0 == d1 && d1 == d2) { scans_eq = false; detail.push_str(&format!("scan of {} differs:\n{}\n---\n{}\n---\n{}; ", hex(d), d0, d1, d2)); }
+                    if !(d0 == d1 && d1 == d2) { scans_eq = false; detail.push_str(&format!("scan of {} with globals {:?} differs:\n{}\n---\n{}\n---\n{}; ", hex(d), over, d0, d1, d2)); }
                 }
             } else { detail.push_str("second deserialize (deserialize_from) failed; "); }
         } else { detail.push_str(&format!("deserialize(serialize R) = {:?}; ", c1)); }
